@@ -500,7 +500,7 @@ def rule_semicolon(m, rid):
     # end of input, so an unguarded construction drops the whole source line silently
     P_ = A.parents(nx.node)
     for c in A.calls(nx.node):
-        if A.text(c.func) != "Line":
+        if A.text(c.func) != "Line" and not (isinstance(c.func, ast.Attribute) and c.func.attr == "copy"):
             continue
         loop = None
         x = c
